@@ -319,7 +319,7 @@ pub fn def() -> CheckDef {
         ],
         real_components: "n real Foca instances (all of src/), the run's codec; all monitors attached to every node",
         stub_components: "network (latency, the single loss) and clock are the simulator",
-        batches: vec![Batch { scenario: &SingleDrop, quick: 400, thorough: 6_000 }],
+        batches: vec![Batch { scenario: &SingleDrop, quick: 400, thorough: 1_500 }],
         extra: None,
     }
 }
